@@ -434,7 +434,7 @@ theorem hybrid_written (o : CreateOpts) (H H1 : Bytes → Bytes) (B hs bpp : Nat
 theorem filesTops_v1Entries (align : Bool) (pl : Nat) (ps : List (List Bytes × Nat))
     (hne : ∀ x ∈ ps, x.1 ≠ []) :
     ∃ tops, filesTops (v1Entries align pl ps) = .ok tops ∧
-      ∀ x ∈ tops, (∃ y ∈ ps, x = y.1.headD []) ∨ (align = true ∧ x = sPad) := by
+      ∀ x ∈ tops, ∃ y ∈ ps, x = y.1.headD [] := by
   induction ps with
   | nil => exact ⟨[], by simp [v1Entries, filesTops], by simp⟩
   | cons a rest ih =>
@@ -445,20 +445,15 @@ theorem filesTops_v1Entries (align : Bool) (pl : Nat) (ps : List (List Bytes × 
       | nil => exact absurd rfl (hne ([], n) (by simp))
       | cons c cs => exact ⟨c, cs, rfl⟩
     by_cases hcond : (align && decide (gap pl n ≠ 0)) = true
-    · have hal : align = true := by
-        cases align
-        · simp at hcond
-        · rfl
-      refine ⟨c :: tops, ?_, ?_⟩
+    · refine ⟨c :: tops, ?_, ?_⟩
       · simp only [v1Entries, hcond, if_true]
         rw [hpc, filesTops_fileEntry, filesTops_padEntry, h5]; rfl
       · intro x hx
         simp only [List.mem_cons] at hx
         rcases hx with rfl | hx
-        · exact Or.inl ⟨(p, n), by simp, by simp [hpc]⟩
-        · rcases h6 x hx with ⟨y, hy, e⟩ | h
-          · exact Or.inl ⟨y, by simp [hy], e⟩
-          · exact Or.inr h
+        · exact ⟨(p, n), by simp, by simp [hpc]⟩
+        · obtain ⟨y, hy, e⟩ := h6 x hx
+          exact ⟨y, by simp [hy], e⟩
     · refine ⟨c :: tops, ?_, ?_⟩
       · simp only [v1Entries, hcond]
         simp only [Bool.false_eq_true, if_false]
@@ -466,19 +461,18 @@ theorem filesTops_v1Entries (align : Bool) (pl : Nat) (ps : List (List Bytes × 
       · intro x hx
         simp only [List.mem_cons] at hx
         rcases hx with rfl | hx
-        · exact Or.inl ⟨(p, n), by simp, by simp [hpc]⟩
-        · rcases h6 x hx with ⟨y, hy, e⟩ | h
-          · exact Or.inl ⟨y, by simp [hy], e⟩
-          · exact Or.inr h
+        · exact ⟨(p, n), by simp, by simp [hpc]⟩
+        · obtain ⟨y, hy, e⟩ := h6 x hx
+          exact ⟨y, by simp [hy], e⟩
 
-/-- hybrid metafile of a directory: `find_root` stays at the payload root, provided the entry
-    of the payload named like the torrent (if any) has no `.pad` entry of its own -/
+/-- hybrid metafile of a directory: `find_root` stays at the payload root (the padding entries
+    of `files` do not count among the described top-level names, so every counted name exists
+    in the payload itself) -/
 theorem descends_hybrid_dir (info : Dict) (name : Bytes) (pl : Nat)
     (enum : List (Bytes × FTree) → List (Bytes × FTree)) (henum : ∀ l, (enum l).Perm l)
     (es : List (Bytes × Node)) (hwn : WellNamed (.dir es))
     (hfiles : dictGet info K.files = some (.list (v1Entries true pl
-      ((ftreeFiles [] (traverse enum (.dir es))).map fun x => (x.1, x.2.length)))))
-    (hinner : ∀ inner, child (.dir es) name = some inner → child inner sPad = none) :
+      ((ftreeFiles [] (traverse enum (.dir es))).map fun x => (x.1, x.2.length))))) :
     descends info name (.dir es) = .ok false := by
   have hfa := traverse_fileAt enum henum (.dir es) hwn
   have hne : ∀ x ∈ (ftreeFiles [] (traverse enum (.dir es))).map (fun x => (x.1, x.2.length)),
@@ -490,16 +484,15 @@ theorem descends_hybrid_dir (info : Dict) (name : Bytes) (pl : Nat)
   apply descends_false info name es tops
   · simp only [topsOf, hfiles, h5, bind, Except.bind]
   · intro inner hin x hx hsome
-    rcases h6 x hx with ⟨y, hy, rfl⟩ | ⟨_, rfl⟩
-    · obtain ⟨z, hz, rfl⟩ := List.mem_map.mp hy
-      have hfz := hfa z hz
-      have hnz := fileAt_dir_ne_nil es z.1 z.2 hfz
-      cases hz1 : z.1 with
-      | nil => exact absurd hz1 hnz
-      | cons c cs =>
-        rw [hz1] at hfz
-        simpa [hz1] using fileAt_head_child es c cs z.2 hfz
-    · rw [hinner inner hin] at hsome; cases hsome
+    obtain ⟨y, hy, rfl⟩ := h6 x hx
+    obtain ⟨z, hz, rfl⟩ := List.mem_map.mp hy
+    have hfz := hfa z hz
+    have hnz := fileAt_dir_ne_nil es z.1 z.2 hfz
+    cases hz1 : z.1 with
+    | nil => exact absurd hz1 hnz
+    | cons c cs =>
+      rw [hz1] at hfz
+      simpa [hz1] using fileAt_head_child es c cs z.2 hfz
 
 /-- `TorrentFileHybrid`, end to end -/
 theorem recheck_created_hybrid (o : CreateOpts) (H1 H : Bytes → Bytes) (B hs bpp : Nat)
@@ -514,8 +507,7 @@ theorem recheck_created_hybrid (o : CreateOpts) (H1 H : Bytes → Bytes) (B hs b
       (fhV2 H B hs bpp x.2).layer = (fhV2 H B hs bpp y.2).layer)
     (hpos : 0 < treeBytes t) (r : BVal) (b : Bytes)
     (h : createHybridClass o H H1 B hs enum t = some (r, b))
-    (arg : ContentArg) (harg : ArgOK arg o.name)
-    (hinner : arg.kind = .root → ∀ inner, child t o.name = some inner → child inner sPad = none) :
+    (arg : ContentArg) (harg : ArgOK arg o.name) :
     ∃ vs, Impl.recheck H1 H B hs b arg t = .ok (vs, treeBytes t, treeBytes t) ∧
       ∀ v ∈ vs, v.1 = true := by
   obtain ⟨info, hw, hfiles⟩ := hybrid_written o H H1 B hs bpp hB hbpp hpl enum henum t hwn r b h
@@ -523,12 +515,11 @@ theorem recheck_created_hybrid (o : CreateOpts) (H1 H : Bytes → Bytes) (B hs b
   have hnm := nameOf_eq r info o.name hw.hm.hinfo hw.hm.hname
   have hres : arg.Resolves info o.name t := by
     apply resolves_of_argOK arg info o.name t harg
-    intro hk
+    intro _
     cases t with
     | file d => exact descends_file info o.name d
     | dir es =>
       exact descends_hybrid_dir info o.name o.pieceLength enum henum es hwn (hfiles es rfl)
-        (hinner hk)
   have hroot := Spec.findRoot_place arg info o.name t hres
   simp only [Impl.recheck, hload, hnm]
   exact recheckMeta_created_v2 o H1 H B hs bpp hhs hH hB hbpp enum henum t hwn hplain hsingle hcoll
@@ -741,12 +732,6 @@ theorem exTree_plainNamed : PlainNamed exTree := by
   simp [exTree, PlainNamed, PlainNamedList, Spec.plainName]
 
 theorem exTree_bytes : treeBytes exTree = 15 := by decide
-
-theorem exTree_no_pad : RF.child exTree Impl.sPad = none := by
-  simp [exTree, RF.child, List.find?, Impl.sPad]
-
-theorem exTree_no_namesake : RF.child exTree exOpts.name = none := by
-  simp [exTree, RF.child, List.find?, exOpts]
 
 /-- only `b` (9 bytes, piece length 4) has more than one piece: no two files can collide -/
 theorem exTree_hcoll (H : Bytes → Bytes) (B hs j : Nat) :
